@@ -31,6 +31,7 @@ def units(tier):
         + [(t, "T4", b["L_T1"]) for t in G.tier4()]
     if tier == "thorough":
         terms += [(t, "T5", b["L_T5"]) for t in G.tier5(False)]
+    terms += [(t, "TC", b["L_T2"]) for t in const_over()]
     for ch in chunks(terms, 16):
         us.append({"kind": "terms", "terms": [[t, tn, L] for t, tn, L in ch]})
     for si in range(len(slots())):
@@ -38,6 +39,31 @@ def units(tier):
             us.append({"kind": "slot", "slot": si, "from": ei, "to": ei + 40})
     us.append({"kind": "special"})
     return us
+
+
+def const_over():
+    """Const(value, subcon) for every context-free subcon of T1/T2 and each alphabet value it can encode (the expected value's
+    encoding lies in S6^<=L so the accepting input is enumerated)"""
+    from .. import ref as R
+    out, seen = [], set()
+    for x in G.tier1() + G.tier2(False):
+        a = G.attrs(x)
+        if not a.ctxfree or x[0] in ("ConstB", "ConstV", "Error", "Terminated", "Pass", "Padding"):
+            continue
+        cands = {"bytes": [b"\x01\x02", b"\x01", b""], "int": [1, 2, 0x0102], "str": ["\x01\x02", "\x01", ""]}.get(a.kind, [])
+        for v in cands:
+            try:
+                enc = R.build(x, v)
+                back, end = R.parse(x, enc)
+            except Exception:
+                continue
+            if end != len(enc) or back != v or type(back) is not type(v) or len(enc) > 4 or any(c not in (0, 1, 2, 0x7f, 0x80, 0xff) for c in enc):
+                continue
+            key = repr((v, x))
+            if key not in seen:
+                seen.add(key)
+                out.append(["ConstV", v, x])
+    return out
 
 
 # -------------------------------------------------------------------------------------
@@ -381,6 +407,9 @@ def run_special(tier, r):
          [dict(k="a", v=1), dict(k="b", v=258), dict(k=3, v=None), dict(k=1, v=1)]),
         ("ifthenelse-str", C.Struct("s" / C.PascalString(C.Byte, "ascii"), "v" / C.IfThenElse(this.s == "hi", C.Byte, C.Int16ub)), [b"\x02hi\x05", b"\x02ho\x00\x05", b"\x00\x01\x02"], []),
         ("focusedseq", C.FocusedSeq("b", "a" / C.Const(b"\x01"), "b" / C.Byte, "c" / C.Computed(this.b + 1)), [b"\x01\x05", b"\x02\x05"], [5, 0]),
+        ("focusedseq-exprsel", C.FocusedSeq(this._params.name, "n0" / C.Const(b"\x01"), "n1" / C.Byte, "n2" / C.Default(C.Byte, 9)), [b"\x01\x05\x06", b"\x02\x05\x06"], [5, 0, None]),
+        ("focusedseq-exprsel-nested", C.Struct("sel" / C.Enum(C.Byte, n1=1, n2=2), "f" / C.FocusedSeq(this._.sel, "n1" / C.Default(C.Byte, 7), "n2" / C.Default(C.Int16ub, 8))), [b"\x01\x05\x00\x06", b"\x02\x05\x00\x06"],
+         [dict(sel="n1", f=3), dict(sel="n2", f=3), dict(sel="n2", f=None)]),
         ("union", C.Union(0, "a" / C.Int16ub, "b" / C.Byte, "c" / C.Bytes(2)), [b"\x01\x02", b"\x01"], [dict(a=258), dict(b=1), dict(c=b"xy")]),
         ("union-none", C.Struct("u" / C.Union(None, "a" / C.Int16ub, "b" / C.Byte), "t" / C.Byte), [b"\x01\x02\x03"], [dict(u=dict(a=5), t=1)]),
         ("union-name", C.Struct("u" / C.Union("b", "a" / C.Int16ub, "b" / C.Byte), "t" / C.Byte), [b"\x01\x02\x03"], []),
